@@ -16,6 +16,11 @@ LAMMPS-triclinic) is written to a temporary .lmpdat, the real entry point runs i
 `Atoms.load`, and the same oracle is applied relative to the INPUT as re-read from the same file.  With `--mic` on an
 orthorhombic cell the expected factors are a_i * ceil(2*mic / (a_i * len_i)) (cases where that ceil is 1 and cases
 where it is 2); on a triclinic cell `--mic` cannot replicate, `--replicate` must still be honoured.
+The other command-line inputs that reach the replication are varied too: the input format (.lmpdat / .cif) and
+`--extract-uc UC` (the input file then carries a placeholder cell, UC — an .lmpdat or .cif with a different,
+e.g. triclinic, cell — carries the real one).  Expectation = the API pipeline: load, take the cell from UC,
+replicate; the reference structure (loaded input with the extracted cell) is passed once through the same .lmpdat
+writer/reader as the output, so that both sides went through the same text layer.
 
 For the tie both dumps are brought to an order-independent canonical form (atoms sorted by charge and position, term
 indices re-mapped, terms sorted).
@@ -32,8 +37,9 @@ RULE = ("random consistent Atoms, 1..6 atoms (quick) / 1..8 (thorough), unique c
         "columns; cells orthorhombic / LAMMPS-triclinic with positive or negative tilts / arbitrarily oriented "
         "(sheared, rows permuted); factors in {1..3}^3 (thorough {1..4}^3, product <= 27), two thirds of the cases "
         "with unequal factors. Non-trivial = distinct input with a non-orthorhombic cell, unequal factors, product "
-        ">= 2 and at least one term. CLI stream: 10 (quick) / 40 (thorough) runs of the real command line with "
-        "--replicate alone and together with --mic, orthorhombic and LAMMPS-triclinic cells.")
+        ">= 2 and at least one term. CLI stream: 12 (quick) / 48 (thorough) runs of the real command line with "
+        "--replicate alone, together with --mic, and together with --extract-uc (cell taken from another file), "
+        ".lmpdat and .cif inputs, orthorhombic and LAMMPS-triclinic cells.")
 
 
 def F(v):
@@ -110,7 +116,7 @@ def oracle_replicate(a, dims, r, a_after=None, a_before=None, tol=1e-9):
             return "%s terms: %d in the result, expected one copy of each of the %d terms in each of the %d images" % (
                 k, len(got), len(a["terms"][k]), len(box))
     # --- tables and labels unchanged
-    if r["types"] != a["types"]:
+    if (r["types"] != a["types"]) if tol <= 1e-9 else bool(core.same(r["types"], a["types"], tol=tol)):
         return "type tables changed by replicate"
     if r["xlabels"] != a["xlabels"]:
         return "extra-column labels changed by replicate"
@@ -205,24 +211,41 @@ def expected_cli_dims(a, dims, mic):
     return out
 
 
-def _cli_replicate(aj, dims, mic):
-    """write aj to a temporary .lmpdat, run the real CLI in-process, return (dump of the input as re-read from the file,
-    result {'ok': dump of the loaded output} / {'err': ..})"""
+def _uc_structure(cellj):
+    """a one-atom structure that only serves as the carrier of a unit cell (--extract-uc)"""
+    return {"cell": cellj, "atoms": [{"ty": 0, "pos": ["0", "0", "0"], "q": "0", "g": 0, "x": []}],
+            "terms": {k: [] for k in KINDS}, "types": {"elem": ["C"], "label": ["C"], "mass": [core.q(gen.masses()["C"])],
+                                                       "pair": [], **{k: [] for k in KINDS}},
+            "xlabels": {"atom": [], **{k: [] for k in KINDS}}}
+
+
+def _cli_replicate(aj, dims, mic, fmt="lmpdat", uc=None, ucfmt="lmpdat"):
+    """write aj to a temporary input file (.lmpdat / .cif), optionally a second file holding the unit cell `uc`, run
+    the real CLI in-process; returns (reference dump, result).  Reference = the input as loaded from the file, with the
+    cell of the UC file when given, passed once through the .lmpdat writer/reader (like the output)."""
     import os
     import shutil
     import tempfile
     tmp = tempfile.mkdtemp(prefix="c12cli_")
     try:
-        inp, out = os.path.join(tmp, "in.lmpdat"), os.path.join(tmp, "out.lmpdat")
-        reread = {}
+        inp, out = os.path.join(tmp, "in." + fmt), os.path.join(tmp, "out.lmpdat")
+        ucp, refp = os.path.join(tmp, "uc." + ucfmt), os.path.join(tmp, "ref.lmpdat")
+        ref = {}
 
         def f():
             from click.testing import CliRunner
             from mofun import Atoms
             from mofun.cli.mofun_cli import mofun_cli
             core.atoms_from_json(aj).save(inp)
-            reread["a"] = core.canon_atoms(Atoms.load(inp))
-            args = [inp, out, "--replicate"] + [str(int(d)) for d in dims]
+            args = [inp, out]
+            loaded = Atoms.load(inp)
+            if uc is not None:
+                core.atoms_from_json(_uc_structure(uc)).save(ucp)
+                loaded.cell = Atoms.load(ucp).cell
+                args += ["--extract-uc", ucp]
+            loaded.save(refp)
+            ref["a"] = core.canon_atoms(Atoms.load(refp))
+            args += ["--replicate"] + [str(int(d)) for d in dims]
             if mic is not None:
                 args += ["--mic", str(float(F(mic)))]
             res = CliRunner().invoke(mofun_cli, args)
@@ -230,22 +253,32 @@ def _cli_replicate(aj, dims, mic):
                 raise RuntimeError("mofun CLI exit code %s: %r" % (res.exit_code, res.exception))
             return core.canon_atoms(Atoms.load(out))
         r = core.result_of(f)
-        return reread.get("a"), r
+        return ref.get("a"), r
     finally:
         shutil.rmtree(tmp, ignore_errors=True)
+
+
+# (input format, cell kind of the input file, cell kind of the --extract-uc file or None, format of that file, mic mode)
+CLI_VARIANTS = [
+    ("lmpdat", "ortho", None, None, "plain"), ("lmpdat", "tri+", None, None, "plain"),
+    ("lmpdat", "ortho", None, None, "mic1"), ("lmpdat", "tri-", None, None, "mic1"),
+    ("lmpdat", "ortho", None, None, "mic2"), ("lmpdat", "ortho", "tri+", "lmpdat", "plain"),
+    ("cif", "tri+", None, None, "plain"), ("cif", "ortho", "tri-", "lmpdat", "plain"),
+    ("lmpdat", "tri+", "ortho", "lmpdat", "mic1"), ("cif", "ortho", None, None, "plain"),
+    ("lmpdat", "tri-", "tri+", "cif", "plain"), ("cif", "tri-", "ortho", "cif", "plain"),
+]
 
 
 def cli_cases(ctx):
     rng = ctx.rng
     out = []
-    n = ctx.n(10, 40)
-    for s in range(n):
-        ck = ["ortho", "tri+", "ortho", "tri-"][s % 4]
+    for s in range(ctx.n(12, 48)):
+        fmt, ck, uck, ucfmt, mode = CLI_VARIANTS[s % len(CLI_VARIANTS)]
         a = gen.rand_atoms(rng, n=rng.randint(2, 5), cell=ck, kinds=KINDS if s % 2 == 0 else None, extras=False,
                            coeffs=True, pair=True, term_density=rng.randint(1, 2))
+        uc = gen.rand_cell(rng, uck)[0] if uck else None
         dims = rand_dims(rng, 3, 8)
-        mode = ["plain", "mic1", "mic2", "mic1"][(s // 2) % 4] if ck == "ortho" else ["plain", "mic1"][(s // 4) % 2]
-        if mode != "plain" and dims == [1, 1, 1]:
+        if (mode != "plain" or uc is not None) and dims == [1, 1, 1]:
             dims = rng.choice([[2, 1, 1], [1, 2, 1], [1, 1, 2], [2, 1, 3]])
         mic = None
         if mode == "mic1":      # already satisfied by the replicated cell: nothing more to do
@@ -253,28 +286,34 @@ def cli_cases(ctx):
         elif mode == "mic2":    # forces a factor 2 along the shortest replicated axis (1 < 2*mic/len <= 3/2 < 2)
             lens = [dims[i] * F(a["cell"][i][i]) for i in range(3)]
             mic = core.q(Fraction(int(min(lens) * 6), 8) - Fraction(1, 8))
-        out.append((a, dims, mic, ck, mode))
+        out.append({"a": a, "dims": dims, "mic": mic, "fmt": fmt, "uc": uc, "ucfmt": ucfmt or "lmpdat",
+                    "tag": "%s:%s%s:%s" % (fmt, ck, "+uc(%s,%s)" % (uck, ucfmt) if uck else "", mode)})
     return out
 
 
-def check_cli(ctx, a, dims, mic, ck, mode):
-    inp = {"op": "cli_replicate", "a": a, "dims": dims, "mic": mic}
-    a_file, r = _cli_replicate(a, dims, mic)
-    want = expected_cli_dims(a_file, dims, mic) if a_file is not None else list(dims)
-    if a_file is None:
-        bad = "the generated structure could not be written / re-read as .lmpdat: %s" % r.get("err")
+def check_cli(ctx, c):
+    a, dims, mic = c["a"], c["dims"], c["mic"]
+    inp = {"op": "cli_replicate", "a": a, "dims": dims, "mic": mic, "fmt": c["fmt"], "uc": c["uc"], "ucfmt": c["ucfmt"]}
+    a_ref, r = _cli_replicate(a, dims, mic, c["fmt"], c["uc"], c["ucfmt"])
+    want = expected_cli_dims(a_ref, dims, mic) if a_ref is not None else list(dims)
+    if a_ref is None:
+        bad = "the generated structure could not be written / re-read (%s): %s" % (c["fmt"], r.get("err"))
     else:
-        bad = oracle_replicate(a_file, want, r, tol=2e-6)
+        bad = oracle_replicate(a_ref, want, r, tol=CLI_TOL)
         if bad:
-            bad = "CLI --replicate %s%s (expected factors %s): %s" % (
-                dims, "" if mic is None else " --mic %s" % mic, want, bad)
-    ctx.case(inp, nontrivial=(mic is not None and dims != [1, 1, 1]))
-    ctx.count("cli:%s:%s" % (ck, mode))
+            bad = "CLI %s input%s --replicate %s%s (expected factors %s): %s" % (
+                c["fmt"], " --extract-uc <%s>" % c["ucfmt"] if c["uc"] is not None else "", dims,
+                "" if mic is None else " --mic %s" % mic, want, bad)
+    ctx.case(inp, nontrivial=((mic is not None or c["uc"] is not None) and dims != [1, 1, 1]))
+    ctx.count("cli:" + c["tag"])
     if want != list(dims):
         ctx.count("cli:mic-forces-factor")
     if bad:
         ctx.fail(bad, inp, observed=r)
-    return a_file, want, r
+    return a_ref, want, r
+
+
+CLI_TOL = 2e-6   # both sides went through "%10.6f" once
 
 
 def _norm(aj):
@@ -304,11 +343,13 @@ def run(ctx, oracle_only=False):
         ops.append(inp)
         impls.append(r)
     # the command line: --replicate alone and together with --mic
-    for a, dims, mic, ck, mode in cli_cases(ctx):
-        a_file, want, r = check_cli(ctx, _norm(a), dims, mic, ck, mode)
-        if a_file is not None and "ok" in r:
-            # tie: the model replicates the re-read input by the expected factors (compared order-independently)
-            ops.append({"op": "replicate", "a": a_file, "dims": want})
+    for c in cli_cases(ctx):
+        c["a"] = _norm(c["a"])
+        a_ref, want, r = check_cli(ctx, c)
+        if a_ref is not None and "ok" in r:
+            # tie: the model replicates the reference structure by the expected factors (compared order-independently,
+            # with the tolerance of the text layer)
+            ops.append({"op": "replicate", "a": a_ref, "dims": want, "via": "cli"})
             impls.append(r)
     if oracle_only:
         return
@@ -321,10 +362,11 @@ def run(ctx, oracle_only=False):
         ctx.count("cell:none")
         ops.append(inp)
         impls.append(r)
-    models = ctx.lean.run(ops)
+    models = ctx.lean.run([{k: v for k, v in o.items() if k != "via"} for o in ops])
     for inp, r, m in zip(ops, impls, models):
         if "ok" in r and "ok" in m:
-            ctx.compare("replicate", inp, {"ok": canon_sorted(r["ok"])}, {"ok": canon_sorted(m["ok"])})
+            ctx.compare("replicate", inp, {"ok": canon_sorted(r["ok"])}, {"ok": canon_sorted(m["ok"])},
+                        numeric_tol=CLI_TOL if inp.get("via") == "cli" else 1e-9)
         else:
             ctx.compare("replicate", inp, r, m)
 
@@ -341,9 +383,10 @@ def search(ctx):
 def replay(ctx, rec):
     inp = rec["input"]
     if inp.get("op") == "cli_replicate":
-        a_file, r = _cli_replicate(inp["a"], inp["dims"], inp.get("mic"))
-        if a_file is None:
+        a_ref, r = _cli_replicate(inp["a"], inp["dims"], inp.get("mic"), inp.get("fmt", "lmpdat"), inp.get("uc"),
+                                  inp.get("ucfmt", "lmpdat"))
+        if a_ref is None:
             return False
-        return oracle_replicate(a_file, expected_cli_dims(a_file, inp["dims"], inp.get("mic")), r, tol=2e-6) is None
+        return oracle_replicate(a_ref, expected_cli_dims(a_ref, inp["dims"], inp.get("mic")), r, tol=CLI_TOL) is None
     r, side = _replicate(inp["a"], inp["dims"])
     return oracle_replicate(inp["a"], inp["dims"], r, side.get("after"), side.get("before")) is None
